@@ -3,6 +3,8 @@
 # applies the patch in a scratch worktree of /repo (removed afterwards), checks: builds, demo FAILS with it,
 # demo PASSES without it, and (with "full") the whole existing suite still passes with it.
 set -u
+# the existing tests bind fixed ports: run every test command in a private network namespace so that concurrent runs cannot collide
+NS() { if unshare -n true 2>/dev/null; then unshare -n sh -c "ip link set lo up && $*"; else sh -c "$*"; fi; }
 export GOFLAGS=-mod=mod GOPROXY=off GOSUMDB=off GOTOOLCHAIN=local
 PATCH=$1; DEMO=$2; PKG=$3; RUN=$4; FULL=${5:-}
 W=$(mktemp -d /tmp/confirm-XXXXXX); rmdir $W
@@ -10,10 +12,10 @@ git -C /repo worktree add -q --detach $W HEAD || exit 2
 trap 'git -C /repo worktree remove --force $W >/dev/null 2>&1' EXIT
 cd $W
 cp $DEMO $W/$PKG/zz_seed_demo_test.go
-echo "== without the change"; go test -vet=off -count=1 -timeout 300s -run "$RUN" ./$PKG 2>&1 | tail -3; R0=${PIPESTATUS[0]}
+echo "== without the change"; NS "go test -vet=off -count=1 -timeout 300s -run '$RUN' ./$PKG" > $W/.out0 2>&1; R0=$?; tail -3 $W/.out0
 git apply $PATCH || { echo "PATCH DOES NOT APPLY"; exit 2; }
 echo "== build with the change"; go build ./... ; RB=$?
-echo "== demo with the change"; go test -vet=off -count=1 -timeout 300s -run "$RUN" ./$PKG 2>&1 | tail -4; R1=${PIPESTATUS[0]}
+echo "== demo with the change"; NS "go test -vet=off -count=1 -timeout 300s -run '$RUN' ./$PKG" > $W/.out1 2>&1; R1=$?; tail -4 $W/.out1
 RF=skipped
-if [ -n "$FULL" ]; then rm -f $W/$PKG/zz_seed_demo_test.go; echo "== existing suite with the change"; go test -vet=off -count=1 -timeout 25m ./... 2>&1 | tail -5; RF=${PIPESTATUS[0]}; fi
+if [ -n "$FULL" ]; then rm -f $W/$PKG/zz_seed_demo_test.go; echo "== existing suite with the change"; NS "go test -vet=off -count=1 -timeout 25m ./..." > $W/.outf 2>&1; RF=$?; tail -5 $W/.outf; fi
 echo "RESULT without=$R0 build=$RB with=$R1 suite=$RF"
